@@ -15,8 +15,8 @@ def junk (g : Int) : Store := ⟨fun l => g + 1009 * (l.1 : Int) + 13 * l.2.1 + 
 @[noinline] def runAcc (σ : Store) (c : Clauses) (region : RStmt) (g : Int) (qs : List Loc) : String :=
   "(" ++ answer (execACC driverFuel c region σ (junk g)) qs ++ " " ++ answer (rexec driverFuel region σ) qs ++ ")"
 
-/-- `(clauses <stmt>)` → `((copyin) (copyout) (copy) FullyWrittenOrRead CopyoutNotRead CopyoutCovered)`;
-`(trans <hasEnterData> (<call-argument vars>) ((<member> <parent>) ...) (<items>))` → `refuse` or the clause lists;
+/-- `(clauses <stmt>)` → `((copyin) (copyout) (copy) FullyWrittenOrRead CopyoutNotRead CopyoutCovered covered)`;
+`(trans <hasEnterData> ((<member> <parent>) ...) (<items>))` → `refuse` or the clause lists;
 `(execacc <prefix> <region> (cin) (cout) (cpy) <g> (<queries>))` → host values after the data
 region run with the GIVEN clause lists and device junk `g`, and after host execution. -/
 def handle (s : Sexp) : String :=
@@ -26,8 +26,8 @@ def handle (s : Sexp) : String :=
     | none => "bad-stmt"
     | some st =>
       "(" ++ showClauses (clauses st) ++ " " ++ b01 (decide (FullyWrittenOrRead st)) ++ " "
-        ++ b01 (copyoutNotRead st) ++ " " ++ b01 (decide (CopyoutCovered st)) ++ ")"
-  | .list [.atom "trans", he, rw, par, its] =>
+        ++ b01 (copyoutNotRead st) ++ " " ++ b01 (decide (CopyoutCovered st)) ++ " " ++ b01 (covered st) ++ ")"
+  | .list [.atom "trans", he, par, its] =>
     match its.items.mapM parseItem with
     | none => "bad-stmt"
     | some items =>
@@ -35,7 +35,7 @@ def handle (s : Sexp) : String :=
         match q.natList with
         | [m, p] => some (m, p)
         | _ => none
-      match accDataTransP (he.nat? == some 1) rw.natList pairs items with
+      match accDataTransP (he.nat? == some 1) pairs items with
       | none => "refuse"
       | some c => "(" ++ showClauses c ++ ")"
   | .list [.atom "execacc", pre, reg, ci, co, cp, g, qs] =>
